@@ -617,7 +617,7 @@ def roundtrip(subj, b0, offsets, rng):
     if o2 is not None:
         try:
             b2 = subj.pack(o2)
-            if b2 != b1:
+            if b2 != b1 and not any(v[0] == 'value-drift' for v in viols):   # one report per broken chain
                 i = next((k for k in range(min(len(b1), len(b2))) if b1[k] != b2[k]), min(len(b1), len(b2)))
                 V('bytes-differ', None, 'second serialisation differs from the first at byte %d (%d vs %d bytes)' % (i, len(b1), len(b2)))
         except Exception as e:
